@@ -25,6 +25,7 @@ import gen_core as G
 import mp
 
 HERE = os.path.dirname(os.path.abspath(__file__))
+MAXV = int(os.environ.get("C12_MAX_VIOLATIONS", "8"))
 BASELINE = os.path.join(vlib.VERIF, "corpus", "C12", "grammar_baseline.json")
 
 
@@ -191,9 +192,22 @@ def shrink(case, failing):
             return True
         return False
     attempt(mask="0")
-    attempt(shape=G.simplify_pads(cur["shape"]))
+    if not attempt(shape=G.simplify_pads(cur["shape"])):
+        # the failure depends on the layout: simplify one padding at a time
+        for path in list(G.paths(cur["shape"], lambda n: G.is_node(n, G.PAD_KINDS))):
+            try:
+                node = G.get_at(cur["shape"], path)
+            except (IndexError, TypeError):
+                continue
+            if not G.is_node(node, G.PAD_KINDS) or node == ["sp", 0]:
+                continue
+            if node[0] == "ld":
+                attempt(shape=G.replace_at(cur["shape"], path, None))
+            else:
+                attempt(shape=G.replace_at(cur["shape"], path, ["sp", 0]))
     sh = cur["shape"]
     k = sh[0]
+    keep_layout = cur["shape"] != G.simplify_pads(cur["shape"])
     # drop parameters / entries one at a time
     lists = {"cell": [6], "data": [6], "sdef": [4], "mcard": [4, 5], "mtcard": [4], "tally": [5]}.get(k, [])
     for idx in lists:
@@ -206,7 +220,7 @@ def shrink(case, failing):
                 new = lst[:i] + lst[i + 1:]
                 s2 = s[:idx] + [new] + s[idx + 1:]
                 # keep the padding discipline: the new last entry may end the card; re-simplify pads
-                attempt(shape=G.simplify_pads(s2))
+                attempt(shape=s2 if keep_layout else G.simplify_pads(s2))
             i -= 1
     # simpler geometry
     if k == "cell":
@@ -259,7 +273,8 @@ def coq_list(classes):
 
 def check_refuted(ctx):
     """the `_refuted` statements of Properties/C12.v are about class lists: tie them to the real lexer and parser"""
-    src = re.sub(r"\s+", " ", open(os.path.join(vlib.COQ, "Properties", "C12.v")).read())
+    with open(os.path.join(vlib.COQ, "Properties", "C12.v")) as fh:
+        src = re.sub(r"\s+", " ", fh.read())
     reqs = []
     for text, block, parser, cl, classes in REFUTED:
         if coq_list(classes) not in src:
@@ -314,6 +329,7 @@ def sweep_sentences(rng):
             add("cell", g.cell(dict(base, params=[key], mat=rng.choice([0, 3]))), rng.choice(["0", "1", "01"]))
     for p in G.ALL_PARTICLES:
         sp = p in G.SYMBOL_PARTICLES
+        g.hit("pl:" + p)
         add("data", g.data_numbers("imp", 3, "UREAL", parts=[(sp, p)]))
         add("cell", _imp_cell(g, base, p))
         add("data", g.mode([(False, "n"), (sp, p)]))
@@ -322,8 +338,9 @@ def sweep_sentences(rng):
     for name in G.NUM_CARDS:
         add("data", g.data_numbers(name, 5, "REAL", num=4))
     for name in G.DIST_CARDS:
-        for _ in range(4):
-            add("data", g.dist_card(name, 1))
+        add("data", g.dist_card(name, 1))
+        for o in G.DIST_OPTIONS:
+            add("data", g.dist_card(name, rng.randint(1, 99), option=o))
     for _ in range(12):
         add("data", g.sdef({"dists": [1, 2]}))
         add("data", g.tally({"num": rng.choice([1, 2, 4, 6, 7, 8]) + 10 * rng.randint(0, 9), "cells": [1, 2, 3]}))
@@ -554,7 +571,7 @@ def run(ctx):
         small = shrink(sentence_case(s), failing_sentence)
         small["original_text"] = s["text"]
         ctx.fail(small)
-        if len(ctx.violations) >= 8:
+        if len(ctx.violations) >= MAXV:
             break
     # ---- 6. whole files
     fd = {"files": 0, "crlf": 0, "failed": 0, "failed_with_failing_card": 0, "with_message": 0}
@@ -586,8 +603,9 @@ def run(ctx):
             j -= 1
         text2 = G.problem_text(cur, None, crlf=crlf)
         ctx.fail({"kind": "file", "text": text2, "failure": oracle_file(text2), "crlf": crlf,
+                  "cards": [{"block": s["block"], "shape": s["shape"], "mask": s["mask"]} for s in cur],
                   "tags": sorted(set(t for s in cur for t in s["tags"]))})
-        if len(ctx.violations) >= 8:
+        if len(ctx.violations) >= MAXV:
             break
     # ---- 7. replay of the committed findings
     for f in ctx.findings:
